@@ -28,6 +28,7 @@ nondeterministic environment outcomes).
 import os
 
 from ..core import AnalysisBroken, canon
+from ..analyses import LOCK_FUNCS
 
 MAX_STEPS = 20000
 MAX_PATHS = 700
@@ -219,6 +220,9 @@ class Machine:
         self.undecided = []       # branches decided by the oracle: (term, loc, fn)
         self.memo = {}
         self.ginit = set()
+        self.locks = []           # lock objects (values) currently held
+        self.on_lock = None       # hook(lock value, loc): the environment acts when a lock is acquired (R-C19f)
+        self.on_kill = None       # hook(event) -> value of a raw kill()
 
     # -- cloning (fork) -------------------------------------------------------
     def fork(self):
@@ -990,8 +994,28 @@ def m_wait_kill(m, name, args, loc):
 
 
 def m_raw_kill(m, name, args, loc):
-    m.note('rawsignal', name, args, loc)
+    d = m.note('rawsignal', name, args, loc, held=tuple(m.locks))
+    if m.on_kill is not None:
+        return m.on_kill(d)
     return I(0)
+
+
+def m_lock(m, name, args, loc):
+    """lock / unlock of a mutex object (analyses.LOCK_FUNCS): the held set is kept by value of the lock argument, so a lock
+    reached through a wrapper, an accessor function or a cached address is the same lock"""
+    kind, ai = LOCK_FUNCS[name]
+    lk = args[ai] if ai < len(args) else ('sym', 'no-lock')
+    if kind.startswith('lock'):
+        before = tuple(m.locks)
+        m.locks.append(lk)
+        m.note('lock', name, args, loc, obj=lk)
+        if m.on_lock is not None:
+            m.on_lock(lk, before, loc)
+    else:
+        m.note('unlock', name, args, loc, obj=lk)
+        if lk in m.locks:
+            m.locks.remove(lk)
+    return None
 
 
 def m_timer_init(m, name, args, loc):
@@ -1045,6 +1069,8 @@ MODELLED = {
 }
 for _n in EXEC_CALLS:
     MODELLED[_n] = m_exec
+for _n in LOCK_FUNCS:
+    MODELLED[_n] = m_lock
 for _n in ('execl', 'execlp', 'execle', 'fexecve'):
     MODELLED[_n] = m_exec
 
@@ -1081,3 +1107,88 @@ def fire_wait(m, status):
         return None
     m.call(m.prog.funcs[h[1]], [r['cookie'], I(status), ('sym', 'RUSAGE')])
     return h[1]
+
+
+# ----------------------------------------------------------------------------
+# the kill helper of the wait module, run against the reaper (R-C19f)
+# ----------------------------------------------------------------------------
+
+from . import h11 as _h11          # typed roles of the wait module: (record, field) of the flag word and of the pid
+
+WAIT_OBJ = (('X', 'interest'),)          # the wait interest of the running child
+WAIT_FLAGS = WAIT_OBJ + (('f', _h11.FLAGS[1]),)
+WAIT_PID = WAIT_OBJ + (('f', _h11.PID[1]),)
+CHILD_PID = ('sym', 'pid-of-the-child')
+
+
+def set_lock_values(prog):
+    """(h11 id, machine values) of the lock of the pid set.  The lock is found by role (h11.wait_lock: the lock the wait
+    module holds at the operations on the interest tree, the reaper included); every acquisition of it in the roots of the
+    unit (helpers inlined, cached addresses and accessor results resolved by the View) is evaluated to the address it
+    designates, which is what the machine compares when a function takes a lock."""
+    h11 = _h11
+    lid = h11.wait_lock(prog)
+    vals = set()
+    if lid is None:
+        return None, vals
+    m = Machine(prog, Oracle([], None), ())
+    for v in h11.views(prog):
+        m.home = (v.root.file,)
+        for e in v.g.events():
+            if e['ev'] != 'call' or e.get('callee') not in LOCK_FUNCS or not h11.takes(e, lid):
+                continue
+            ai = LOCK_FUNCS[e['callee']][1]
+            try:
+                val = m.rvalue(v.origin(e['args'][ai]), 0)
+            except AnalysisBroken:
+                continue
+            if isinstance(val, tuple) and val[0] == 'addr' and val[1][0][0] == 'G':
+                vals.add(val)
+    return lid, vals
+
+
+class HelperRun:
+    pass
+
+
+def helper_runs(prog, f, flags0, deadvals, sig, setlocks):
+    """All executions of f(&interest, sig), f a function of the wait module, against the adversary that matters for `no signal
+    to a reaped pid`: the interest's flag word is `flags0` at entry, and whenever f acquires a lock while it holds none of
+    `setlocks` (the lock of the pid set, under which the reaper marks) the reaper may have run in the meantime and stored
+    one of `deadvals` into a flag word that was clear.  While the set's lock is held the flag cannot change.  Each raw
+    kill() is logged with the locks held and the flag word at that moment."""
+    def scenario(orc):
+        r = HelperRun()
+        m = r.m = Machine(prog, orc, (f.file,))
+        m.mem[WAIT_FLAGS] = I(flags0)
+        m.mem[WAIT_PID] = CHILD_PID
+        r.flipped = False
+        r.end = 'done'
+        r.ret = None
+        cnt = [0]
+
+        def on_lock(lk, before, loc):
+            if any(b in setlocks for b in before) or not is_i(m.mem.get(WAIT_FLAGS), 0):
+                return
+            cnt[0] += 1
+            opts = ['child not reaped'] + ['child reaped meanwhile, flag word = %d' % d for d in deadvals]
+            c = orc.choose(('reaper', loc, cnt[0]), opts)
+            if c:
+                m.mem[WAIT_FLAGS] = I(deadvals[c - 1])
+                r.flipped = True
+
+        def on_kill(d):
+            d['flags'] = m.read(WAIT_FLAGS)
+            d['locked'] = any(l in setlocks for l in m.locks)
+            return I(0)
+        m.on_lock, m.on_kill = on_lock, on_kill
+        try:
+            r.ret = m.call(f, [('addr', WAIT_OBJ), sig])
+        except PathEnd as pe:
+            r.end = pe.why
+        return r
+    out = []
+    for trail, r in explore(scenario, None):
+        r.trail = trail
+        out.append(r)
+    return out
